@@ -106,6 +106,9 @@ FAMILIES["cancel"] = dict(SOLVE_FAMILY, rule="universes of all shapes (general/t
 FAMILIES["reuse"] = dict(SOLVE_FAMILY, rule="2-4 solves on ONE solver over a generated universe (same problem again, or new requirements / constraints / soft lists), sync runtime; half of the cases with a transient cancellation placed at a random poll or provider request of the uncancelled history, so later solves run after a Cancelled (and after Unsolvable) outcome")
 FAMILIES["reuse-async"] = dict(SOLVE_FAMILY, rule="as `reuse` with an asynchronous provider: every get_candidates / get_dependencies (1/3: also filter/sort) is a future completed by a manual single-threaded executor according to a schedule (FIFO, LIFO, seeded random); cancellation can strike while requests are in flight")
 FAMILIES["async"] = dict(SOLVE_FAMILY, rule="one solve with an asynchronous provider under a manual single-threaded executor that completes one outstanding request at a time (FIFO / LIFO / seeded random schedules; 1/3 with filter_candidates and sort_candidates also asynchronous); the pending set at every quiescent point and every completion are recorded")
+FAMILIES["async-cf"] = dict(SOLVE_FAMILY, rule="the conflict-free universes of `conflictfree` solved with the asynchronous provider and executor of `async` (all completion orders explored by FIFO/LIFO/random schedules)")
+FAMILIES["amo-solve"] = dict(SOLVE_FAMILY, rule="one package with n = 1..70 candidates (every power-of-two boundary of the helper encoding crossed) revealed through a union whose members are a random partition of the candidates in random order, "
+    "random ranks, hints on/off, root requirements in random order; the problem requires two different candidates (expected Unsolvable) or exactly one (expected solvable)")
 FAMILIES["conflictfree"] = dict(SOLVE_FAMILY, rule="as `solve` without locks/exclusions/Unknown/missing packages, biased to version sets matching everything, with favored candidates; "
     "non-trivial additionally requires the preferred candidates to be mutually compatible (C07 hypothesis, decided by the driver)")
 
@@ -117,6 +120,19 @@ FAMILIES["cache"] = {
                            "peek": int("peek 1" in c), "panics": sum(l.startswith("panic") for l in i)},
     "compare": exact, "shrinkable": "universe",
     "signature": lambda lines, item: "cache:" + re.sub(r"\d+", "N", item.get("model", ""))[:30],
+}
+
+FAMILIES["snapshot"] = {
+    "feed_impl": True,
+    "rule": "generated providers (2/3 with sparse, shuffled ids; no favored/locked, which the format does not represent) captured from random seed subsets (names, version sets incl. the highest-numbered one, solvables); "
+            "the snapshot contents are compared field by field with the model before and after a serde_json round-trip; the problem (incl. the highest captured version set) is solved live, through the snapshot and through the deserialised snapshot, with 0-2 add_package_requirement calls; "
+            "non-trivial = at least 5 captured solvables and (sparse ids or an added requirement); distinct by sha256",
+    "nontrivial": lambda c, i: sum(l.startswith("snap-deps") for l in i) >= 5,
+    "stats": lambda c, i: {"captured_solvables": sum(l.startswith("snap-deps") for l in i), "adds": sum(l.startswith("add ") for l in c),
+                           "ok": sum(l.startswith("viasnap ok") for l in i), "unsat": sum(l == "viasnap unsat" for l in i),
+                           "panics": sum("panic" in l for l in i)},
+    "compare": split_oracles, "shrinkable": "universe",
+    "signature": lambda lines, item: re.sub(r"\[[^\]]*\]", "[..]", re.sub(r"\d+", "N", str(item.get("oracle") or item.get("model"))))[:100],
 }
 
 FAMILIES["pool"] = {
@@ -186,7 +202,7 @@ PROPS = {
         "nt_rule": "preferred",
         "level": "other", "module": "Resolvo.Props.C07",
         "theorems": ["Resolvo.C07.firstChoice_favored", "Resolvo.C07.firstChoice_ranked", "Resolvo.C07.union_order"],
-        "families": [("conflictfree", CF_Q), ("solve", SOLVE_Q)],
+        "families": [("conflictfree", CF_Q), ("async-cf", {"quick": 3000, "thorough": 40000}), ("solve", SOLVE_Q)],
         "explanation": "PROVED: characterisation of the first choice (favored first, then best rank; unions in listed order) in the SolverCache model. CHECKED PER RUN: whenever the driver finds the preferred closure consistent (C07 hypothesis), the implementation's solution must equal it as a set. NOT YET PROVED: the universal statement for the model of the search.",
     },
     "C08": {
@@ -252,11 +268,23 @@ PROPS = {
     "C15": {
         "level": "proof",
         "module": "Resolvo.Props.C15",
+        "imports": ["Resolvo.Props.C15Model"],
         "theorems": ["Resolvo.C15.amo_sound", "Resolvo.C15.amo_complete_one", "Resolvo.C15.amo_complete_none",
-                     "Resolvo.C15.amo_stable", "Resolvo.C15.threshold"],
-        "families": [("amo", {"quick": 400, "thorough": 6000})],
+                     "Resolvo.C15.amo_stable", "Resolvo.C15.threshold", "Resolvo.C15.pair_not_valid", "Resolvo.C15.pair_never_ok", "Resolvo.C15.single_never_unsat"],
+        "families": [("amo", {"quick": 400, "thorough": 6000}), ("amo-solve", {"quick": 1400, "thorough": 28000})],
         "assumptions": ["helper variables come from a counter distinct from candidate variables (VariableMap::next_id)"],
         "trusted_base": [],
+    },
+    "C16": {
+        "level": "other", "module": "Resolvo.Props.C16",
+        "theorems": ["Resolvo.C16.added_fresh", "Resolvo.C16.added_distinct", "Resolvo.C16.captured_resolves", "Resolvo.C16.added_resolves",
+                     "Resolvo.C16.mapping_roundtrip", "Resolvo.C16.closure_mono"],
+        "families": [("snapshot", {"quick": 2500, "thorough": 60000})],
+        "explanation": "PROVED: ids of added version sets never alias captured ids or each other; every captured id incl. the highest resolves to the captured set and every added id to its added set; Mapping serde round-trip keeps contents (C19); seeds are in every capture. "
+                       "CHECKED PER RUN: the real snapshot equals the model's capture field by field (solvables with name / order / hint / dependencies, version sets with matching sets, unions, packages with candidate order and exclusions, strings), before and after serde_json round-trip; "
+                       "verdict through the snapshot and through the deserialised snapshot = verified decideSolvable on the live data (with the added version sets), solutions valid against the live data, ids returned by add_package_requirement fresh. "
+                       "NOT PROVED: that the BFS closure is closed (fuel sufficiency) and order preservation for arbitrary providers (A16: sort induced by one total preorder per package).",
+        "assumptions": ["A16: sort_candidates is induced by one per-package key", "favored/locked are not represented by the format; union member order is not represented (hash set)"],
     },
     "C18": {
         "level": "proof", "module": "Resolvo.Props.C18",
